@@ -453,7 +453,30 @@ def check_apply(ctx, F):
                 else:
                     ctx.bad('MPT-C12c', fn, 'evaluate_acl_metadata is not applied to the hit frame\'s extra_metadata and the normalised context', line=ev.line, detail='decision-args')
         else:
-            ctx.bad('MPT-C12c', fn, 'decision does not come from evaluate_acl_metadata', line=bs['line'], detail='decision-source')
+            # the per-hit decision may be computed by a private helper: decide the same clause inside it
+            done = False
+            for c in sl.calls:
+                h = F.fns.get(c.local_callee) if c.local_callee else None
+                if h is None or h.is_closure or 'AclDecision' not in h.local_ty(0):
+                    continue
+                evs = [x for x in h.calls() if x.key.endswith('evaluate_acl_metadata')]
+                others = {x.key for x in h.calls() if 'AclDecision' in (h.local_ty(x.dest.l) if x.dest is not None and not x.dest.p else '')} - {x.key for x in evs}
+                if not evs or any(not o.endswith('AclDecision::deny_missing_metadata') for o in others):
+                    continue
+                ctx.touch(h, len(h.blocks))
+                s0 = lib.slice_back(h, [evs[0].args[0]])
+                s1 = lib.slice_back(h, [evs[0].args[1]])
+                pidx = sorted(a for a in s1.args if 1 <= a <= len(c.args))
+                ctxarg = lib.slice_back(fn, [c.args[pidx[0] - 1]]) if pidx else None
+                if s0.has_field('Frame', 'extra_metadata') and s0.calls_matching('Memvid::frame_by_id') and ctxarg is not None and (
+                        ctxarg.calls_matching('validate_enforce_acl_context') or ctxarg.calls_matching('normalize_acl_context')):
+                    ctx.ok('MPT-C12c', fn, 'decision = %s(hit, normalised context), which is evaluate_acl_metadata(frame_by_id(hit.frame_id).extra_metadata, context) | deny' % h.name, line=c.line)
+                else:
+                    ctx.bad('MPT-C12c', fn, 'evaluate_acl_metadata (in %s) is not applied to the hit frame\'s extra_metadata and the normalised context' % h.name, line=c.line, detail='decision-args')
+                done = True
+                break
+            if not done:
+                ctx.bad('MPT-C12c', fn, 'decision does not come from evaluate_acl_metadata', line=bs['line'], detail='decision-source')
 
 
 # --------------------------------------------------------------------------- evaluate_acl_metadata & friends
